@@ -6,7 +6,7 @@ Every notification the routing core emits towards a connection can be encoded by
 protocol without error or panic."
 Model: `Model/Encode.lean` (`Notification → Packet → Protocol::write`) over the codec models
 (`Model/Codec/V4.lean`, `V5.lean`, tied to the four codec copies by C04) and the router model's
-forward construction (`Router.mkForward`). `Emittable v extra n`: `n` is a notification form the
+forward construction (`Router.mkForward`, alias gate of `Router.forwardDeviceData`). `Emittable v extra n`: `n` is a notification form the
 router model puts into the buffer of a connection of version `v`, with the value ranges of the
 Rust field types; `extra` = the pass-through properties of the stored publish.
 -/
@@ -39,43 +39,19 @@ theorem router_emits_encodable_v5 (extra : Props) (n : Router.Notif)
     exact encodable_of_ok (out := out) (by simpa [ofNotif, write, DNotif.toPacket, protocolWrite] using h1)
   | shadow t m => rfl
 
-/-- C20 clause 2, MQTT 3.1.1 connections, full strength — FALSE on the as-is code. -/
-def RouterEmitsEncodableV4 : Prop :=
-  ∀ (extra : Props) (n : Router.Notif), Emittable .v4 extra n = true → encodable .v4 (ofNotif extra n) = true
-
-/-- witness: a publish that carries properties (published through a v5 listener with any property,
-    even only a topic alias, or a will with will properties) forwarded to a v4 connection makes
-    `V4::write` hit `unreachable!()`: the subscriber's connection task panics. -/
-theorem v4_forward_with_properties_panics :
-    Emittable .v4 [] (.forward { qos := 0, pkid := 0, retain := false, dup := false,
-                                  topic := [116], payload := [109], hasProps := true } none) = true ∧
-    write .v4 (ofNotif [] (.forward { qos := 0, pkid := 0, retain := false, dup := false,
-                                      topic := [116], payload := [109], hasProps := true } none))
-      = .error .panic := by
-  constructor
-  · decide
-  · rfl
-
-theorem router_emits_encodable_v4_fails : ¬ RouterEmitsEncodableV4 := by
-  intro hall
-  have h := hall [] _ v4_forward_with_properties_panics.1
-  simp [encodable, v4_forward_with_properties_panics.2] at h
-
-/-- the same clause with exactly the excluded trigger as hypothesis: no forward of a publish that
-    carries properties. Everything else the router emits towards a v4 connection is encodable. -/
-theorem router_emits_encodable_v4_partial (extra : Props) (n : Router.Notif)
-    (h : Emittable .v4 extra n = true)
-    (hp : ∀ p c, n = .forward p c → p.hasProps = false) : encodable .v4 (ofNotif extra n) = true := by
+/-- C20 clause 2, MQTT 3.1.1 connections, full strength: every notification the routing core emits
+    towards a v4 connection is written without error or panic — also a forward whose stored publish
+    carries MQTT 5 properties (published through a v5 listener, or a will with will properties):
+    `V4::write` drops them. -/
+theorem router_emits_encodable_v4 (extra : Props) (n : Router.Notif)
+    (h : Emittable .v4 extra n = true) : encodable .v4 (ofNotif extra n) = true := by
   cases n with
   | forward p c =>
-    have hp' := hp p c rfl
     simp only [Emittable, Bool.and_eq_true] at h
     have hf := pubOk_facts h.1
-    obtain ⟨out, h1, _⟩ := C04.v4_roundtrip .broker _
-      (forward_wf_v4 .broker hf hp' (by intro hk; cases hk))
+    obtain ⟨out, h1, _⟩ := C04.v4_roundtrip .broker _ (forward_wf_v4 .broker hf (by intro hk; cases hk))
     apply encodable_of_ok (out := out)
-    simp only [ofNotif, write, DNotif.toPacket, protocolWrite, forwardProps_eq, hp']
-    rw [← pkid_norm, ← v4_encode_publish_norm] at h1
+    rw [v4_write_forward]
     exact h1
   | ack a =>
     obtain ⟨out, h1⟩ := ack_ok_v4 a h
@@ -85,6 +61,21 @@ theorem router_emits_encodable_v4_partial (extra : Props) (n : Router.Notif)
     obtain ⟨out, h1⟩ := disconnect_ok_v4 .broker (discReasonOf r)
     exact encodable_of_ok (out := out) (by simpa [ofNotif, write, DNotif.toPacket, protocolWrite] using h1)
   | shadow t m => rfl
+
+/-- regression example (this forward used to make `V4::write` hit `unreachable!()`: `vh stack`
+    cases `x54-…`, corpus/C20/f1): a stored publish with properties towards a v4 connection is
+    written as the plain 3.1.1 PUBLISH -/
+example :
+    Emittable .v4 [] (.forward { qos := 0, pkid := 0, retain := false, dup := false,
+                                  topic := [116], payload := [109], hasProps := true } none) = true ∧
+    (write .v4 (ofNotif [] (.forward { qos := 0, pkid := 0, retain := false, dup := false,
+                                       topic := [116], payload := [109], hasProps := true } none))).toOption
+      = some [0x30, 4, 0, 1, 116, 109] := by
+  refine ⟨by decide, ?_⟩
+  rw [v4_write_forward]
+  simp [qosOf, V4.encode, V4.encParts, V4.encPublish, V4.publishLen, V4.publishByte1, boolBit,
+    QoS.toNat, encBytes16, frame, encVarint, encVarintLoop_lt128, remainingLimit, encU16, u8,
+    Except.toOption]
 
 /-- what a forward looks like when the router has built it from the stored publish `p0`
     (`forward_device_data`): payload, retain flag and dup flag of the stored publish, the
@@ -98,13 +89,13 @@ theorem forward_keeps_content (qos : Nat) (alias : Option Nat) (existed : Bool) 
     (Router.mkForward qos none false none p0).topic = p0.topic := by
   cases alias <;> cases existed <;> cases subId <;> simp [Router.mkForward]
 
-/-- C20 clause 1 towards a 3.1.1 subscriber: the bytes a v4 link writes for a forward without
-    properties decode, in the CLIENT crate's v4 codec, to a PUBLISH with the forward's topic and
-    payload (no properties exist in that packet format); composed with `forward_keeps_content`
-    these are the publisher's topic and payload. The topic is UTF-8 (the router checked it). -/
+/-- C20 clause 1 towards a 3.1.1 subscriber: the bytes a v4 link writes for a forward — whether or
+    not the stored publish carries MQTT 5 properties — decode, in the CLIENT crate's v4 codec, to a
+    PUBLISH with the forward's topic and payload; the properties are dropped (that packet format
+    has none). Composed with `forward_keeps_content` these are the publisher's topic and payload.
+    The topic is UTF-8 (the router checked it). -/
 theorem cross_version_content_v4 (extra : Props) (p : Router.Pub) (c : Option Router.Cursor)
-    (h : Emittable .v4 extra (.forward p c) = true) (hp : p.hasProps = false)
-    (hutf : validUtf8 p.topic = true) :
+    (h : Emittable .v4 extra (.forward p c) = true) (hutf : validUtf8 p.topic = true) :
     ∃ out, write .v4 (ofNotif extra (.forward p c)) = .ok out ∧
       ∀ max r, out.length ≤ max →
         V4.decode .client max (out ++ r) =
@@ -113,10 +104,9 @@ theorem cross_version_content_v4 (extra : Props) (p : Router.Pub) (c : Option Ro
   simp only [Emittable, Bool.and_eq_true] at h
   have hf := pubOk_facts h.1
   obtain ⟨out, h1, h2⟩ := C04.v4_interop_broker_to_client _
-    (forward_wf_v4 .broker hf hp (by intro hk; cases hk)) (forward_wf_v4 .client hf hp (fun _ => hutf))
+    (forward_wf_v4 .broker hf (by intro hk; cases hk)) (forward_wf_v4 .client hf (fun _ => hutf))
   refine ⟨out, ?_, h2⟩
-  simp only [ofNotif, write, DNotif.toPacket, protocolWrite, forwardProps_eq, hp]
-  rw [← pkid_norm, ← v4_encode_publish_norm] at h1
+  rw [v4_write_forward]
   exact h1
 
 /-- C20 clause 1 towards an MQTT 5 subscriber: the bytes decode, in the CLIENT crate's v5 codec, to
@@ -157,46 +147,31 @@ theorem v5_properties_preserved (extra : Props) (p : Router.Pub) (hx : extraOk e
   · intro q hq
     exact mem_fwdList (V5.mem_normalize hq).1
 
-/-- C20 clause 1 with the broker's topic aliases, full strength — FALSE on the as-is code: for two
-    consecutive forwards the router builds for ONE subscription (`forward_device_data`: the first
-    sweep sets a new alias `a` for the FILTER, a later sweep finds it and clears the topic), the
-    topic an MQTT 5 client resolves for the second one is the second publish's topic. -/
-def AliasedForwardsKeepTopic : Prop :=
-  ∀ (qos a : Nat) (subId : Option Nat) (p1 p2 : Router.Pub) (table : List (Nat × Bytes)),
-    p1.topic ≠ [] →
-    let f1 := Router.mkForward qos (some a) false subId p1
-    let f2 := Router.mkForward qos (some a) true subId p2
-    (resolveTopic (resolveTopic table f1.topic f1.alias).2 f2.topic f2.alias).1 = some p2.topic
+/-- a filter without wildcards is matched by exactly one topic -/
+theorem no_wildcard_filter_one_topic (t1 t2 f : Topic.Str) (hf : Topic.hasWildcards f = false)
+    (h1 : Topic.matchesImpl t1 f = true) (h2 : Topic.matchesImpl t2 f = true) : t1 = t2 := by
+  rw [Topic.matchesImpl_no_wildcards hf h1, Topic.matchesImpl_no_wildcards hf h2]
 
-/-- witness (replayed on the real broker by `vh stack`, cases `x?5-…-a2-w1-…`): the alias is keyed
-    by the subscription FILTER, so with a wildcard filter `t/#` the message published on `t/b`
-    after one on `t/a` is forwarded with an empty topic and the alias of `t/a`: the subscriber
-    resolves the wrong topic. -/
-theorem alias_keyed_by_filter_confuses_topics :
-    let p1 : Router.Pub := { qos := 0, pkid := 0, retain := false, dup := false, topic := [116, 47, 97], payload := [1] }
-    let p2 : Router.Pub := { qos := 0, pkid := 0, retain := false, dup := false, topic := [116, 47, 98], payload := [2] }
-    let f1 := Router.mkForward 1 (some 1) false none p1
-    let f2 := Router.mkForward 1 (some 1) true none p2
-    (resolveTopic (resolveTopic [] f1.topic f1.alias).2 f2.topic f2.alias).1 = some p1.topic ∧
-    p1.topic ≠ p2.topic := by
-  decide
-
-theorem aliased_forwards_keep_topic_fails : ¬ AliasedForwardsKeepTopic := by
-  intro h
-  have := h 1 1 none
-    { qos := 0, pkid := 0, retain := false, dup := false, topic := [116, 47, 97], payload := [1] }
-    { qos := 0, pkid := 0, retain := false, dup := false, topic := [116, 47, 98], payload := [2] } []
-    (by decide)
-  revert this
-  decide
-
-/-- the same clause with exactly the excluded trigger as hypothesis: the two publishes have the
-    same topic (always the case for a filter without wildcards). -/
-theorem aliased_forwards_keep_topic_partial (qos a : Nat) (subId : Option Nat) (p1 p2 : Router.Pub)
-    (table : List (Nat × Bytes)) (h1 : p1.topic ≠ []) (hsame : p1.topic = p2.topic) :
+/-- C20 clause 1 with the broker's topic aliases, full strength. The router gives a subscription a
+    broker alias only if its filter has no wildcards (`forward_device_data`:
+    `has_wildcards(&request.filter)`; model: `Router.forwardDeviceData`), and everything it forwards
+    for a subscription matches the filter. Then for two consecutive forwards of ONE subscription
+    (the first sweep sets the new alias `a` and sends the topic, a later sweep finds the alias and
+    clears the topic) the topic an MQTT 5 client resolves for the second one is the second
+    publish's topic. -/
+theorem aliased_forwards_keep_topic (filter : String) (qos a : Nat) (subId : Option Nat)
+    (p1 p2 : Router.Pub) (t1 t2 : String) (table : List (Nat × Bytes))
+    (hgate : Topic.hasWildcards filter.toList = false)
+    (hu1 : Router.utf8? p1.topic = some t1) (hu2 : Router.utf8? p2.topic = some t2)
+    (hm1 : Router.topicMatches t1 filter = true) (hm2 : Router.topicMatches t2 filter = true)
+    (h1 : p1.topic ≠ []) :
     let f1 := Router.mkForward qos (some a) false subId p1
     let f2 := Router.mkForward qos (some a) true subId p2
     (resolveTopic (resolveTopic table f1.topic f1.alias).2 f2.topic f2.alias).1 = some p2.topic := by
+  have ht : t1 = t2 :=
+    String.toList_inj.mp (no_wildcard_filter_one_topic t1.toList t2.toList filter.toList hgate hm1 hm2)
+  subst ht
+  have hsame : p1.topic = p2.topic := utf8?_inj hu1 hu2
   have e1 : (Router.mkForward qos (some a) false subId p1).topic = p1.topic := by
     cases subId <;> simp [Router.mkForward]
   have a1 : (Router.mkForward qos (some a) false subId p1).alias = some a := by
@@ -213,6 +188,14 @@ theorem aliased_forwards_keep_topic_partial (qos a : Nat) (subId : Option Nat) (
   simp only [hne, Bool.false_eq_true, if_false, List.isEmpty_nil, if_true]
   rw [← hsame]
   exact Encode.nlookup_ninsert_same a p1.topic table
+
+/-- regression example (`vh stack` cases `x?5-…-a2-w1-…`, corpus/C20/f2): with the wildcard filter
+    `t/#` the gate is closed — no alias, both messages go out with their full topics — although an
+    alias keyed by that filter would confuse `t/a` and `t/b` -/
+example :
+    Topic.hasWildcards "t/#".toList = true ∧ Topic.hasWildcards "t/a".toList = false ∧
+    Topic.matchesImpl "t/a".toList "t/#".toList = true ∧ Topic.matchesImpl "t/b".toList "t/#".toList = true := by
+  decide
 
 /- non-vacuity -/
 example : Emittable .v5 [⟨1, .u8 1⟩, ⟨38, .pair [107] [118]⟩]
